@@ -136,7 +136,17 @@ def generate():
     if not pw_ok:
         raise TranslatorError(f"{TR}: predicate-write detection in assignment_expr changed")
     # reset() of the transformer and entry points (G4)
-    reset_calls = [ast.unparse(s) for s in tmethods["reset"].body]
+    # reset() must be STRAIGHT-LINE: a sequence of unconditional calls.  A guard, an early return, a try ... would make "reset clears X"
+    # depend on the state (the tables below record the calls as if they always happen): fail closed.
+    for st in tmethods["reset"].body:
+        if isinstance(st, ast.Expr) and isinstance(st.value, ast.Constant) and isinstance(st.value.value, str):
+            continue
+        if not (isinstance(st, ast.Expr) and isinstance(st.value, ast.Call)):
+            raise TranslatorError(f"{TR}: reset() is no longer a straight-line sequence of calls: `{ast.unparse(st)[:80]}`", st)
+    for st in methods["reset_flags"].body:
+        if not isinstance(st, (ast.Assign, ast.Expr)):
+            raise TranslatorError(f"{EXT}: reset_flags() is no longer a straight-line sequence of assignments: `{ast.unparse(st)[:80]}`", st)
+    reset_calls = [ast.unparse(s) for s in tmethods["reset"].body if not (isinstance(s.value, ast.Constant))]
     holder_src = (common.REPO / HOLDER).read_text()
     htree = ast.parse(holder_src)
     hcls = [n for n in htree.body if isinstance(n, ast.ClassDef) and n.name == "ILOpsHolder"][0]
